@@ -18,20 +18,20 @@ import (
 )
 
 const (
-	MTOCIManifest  = "application/vnd.oci.image.manifest.v1+json"
-	MTOCIIndex     = "application/vnd.oci.image.index.v1+json"
-	MTOCIConfig    = "application/vnd.oci.image.config.v1+json"
-	MTOCILayerGz   = "application/vnd.oci.image.layer.v1.tar+gzip"
-	MTOCILayer     = "application/vnd.oci.image.layer.v1.tar"
-	MTOCIEmpty     = "application/vnd.oci.empty.v1+json"
-	MTDockerMan    = "application/vnd.docker.distribution.manifest.v2+json"
-	MTDockerList   = "application/vnd.docker.distribution.manifest.list.v2+json"
-	MTDockerConfig = "application/vnd.docker.container.image.v1+json"
-	MTDockerLayer  = "application/vnd.docker.image.rootfs.diff.tar.gzip"
-	MTDockerForeign = "application/vnd.docker.image.rootfs.foreign.diff.tar.gzip"
-	MTDockerSchema1 = "application/vnd.docker.distribution.manifest.v1+json"
+	MTOCIManifest         = "application/vnd.oci.image.manifest.v1+json"
+	MTOCIIndex            = "application/vnd.oci.image.index.v1+json"
+	MTOCIConfig           = "application/vnd.oci.image.config.v1+json"
+	MTOCILayerGz          = "application/vnd.oci.image.layer.v1.tar+gzip"
+	MTOCILayer            = "application/vnd.oci.image.layer.v1.tar"
+	MTOCIEmpty            = "application/vnd.oci.empty.v1+json"
+	MTDockerMan           = "application/vnd.docker.distribution.manifest.v2+json"
+	MTDockerList          = "application/vnd.docker.distribution.manifest.list.v2+json"
+	MTDockerConfig        = "application/vnd.docker.container.image.v1+json"
+	MTDockerLayer         = "application/vnd.docker.image.rootfs.diff.tar.gzip"
+	MTDockerForeign       = "application/vnd.docker.image.rootfs.foreign.diff.tar.gzip"
+	MTDockerSchema1       = "application/vnd.docker.distribution.manifest.v1+json"
 	MTDockerSchema1Signed = "application/vnd.docker.distribution.manifest.v1+prettyjws"
-	MTOCIArtifact   = "application/vnd.oci.artifact.manifest.v1+json"
+	MTOCIArtifact         = "application/vnd.oci.artifact.manifest.v1+json"
 )
 
 // Desc is a descriptor as this package serialises it.
@@ -86,12 +86,12 @@ type Graph struct {
 }
 
 type G struct {
-	T      *simrt.Tape
-	n      int
+	T       *simrt.Tape
+	n       int
 	MaxBlob int
-	pool   []*Blob // blobs available for sharing
-	Alg    string
-	NoExt  bool // never generate external (URL) layers
+	pool    []*Blob // blobs available for sharing
+	Alg     string
+	NoExt   bool // never generate external (URL) layers
 }
 
 func New(t *simrt.Tape) *G { return &G{T: t, MaxBlob: 600, Alg: "sha256"} }
